@@ -50,8 +50,14 @@ def restricted_prims(repo: Repo) -> Set[str]:
     for n in ast.walk(fi.node):
         if isinstance(n, ast.If) and any(isinstance(a, ast.Assert) and 'field_name' in norm(a.test) for a in ast.walk(n)):
             for c in ast.walk(n.test):
-                if isinstance(c, (ast.List, ast.Tuple, ast.Set)) and c.elts and all(isinstance(e, ast.Constant) and isinstance(e.value, str) for e in c.elts):
-                    return {e.value for e in c.elts}
+                # `cls.prim in <collection>`: the collection may be a display or a named constant (folded)
+                if isinstance(c, ast.Compare) and len(c.ops) == 1 and isinstance(c.ops[0], ast.In):
+                    try:
+                        v = repo.fold(c.comparators[0], fi.module)
+                    except Exception:
+                        v = None
+                    if isinstance(v, (list, tuple, set, frozenset)) and v and all(isinstance(x, str) for x in v):
+                        return set(v)
     return set()
 
 
